@@ -108,9 +108,13 @@ def build(name, spec):
     elif name == "ETSD-S2E":
         e = Ext()
         rec = streams.Recorder()
+        dicts = []
+        s2d = testtools.StreamToDict(dicts.append)
         r = testtools.ExtendedToStreamDecorator(
-            testtools.CopyStreamResult([rec, testtools.StreamToExtendedDecorator(e)]))
+            testtools.CopyStreamResult([rec, testtools.StreamToExtendedDecorator(e), s2d]))
         ext_obs("stream->ext", e)
+        # a consumer that keeps the test dicts it was given and looks at them after the run
+        obs.append(("StreamToDict-kept-dicts", lambda: [frozenset(d["tags"]) for d in dicts if d["status"] != "inprogress"]))
         obs.append(("final-status-events", lambda: [
             (s["test_tags"] or frozenset()) for s in rec.statuses()
             if s["test_status"] in streams.FINAL]))
